@@ -6,7 +6,7 @@ randomised outputs are checked by replaying the documented sampler on a clone of
 with a 6-sigma moment test as the arbiter when the replay disagrees (a change of draw order alone is not
 a violation of the property).
 
-As built: Workload extras: 1-19 arms, n_jobs in {1,2,3,-1} (threads), reward magnitudes 2^-40..2^40 and near-equal values (one class per history), arm changes before the first fit; in 1/27 of the cases one batch of 2^20 + k rows laid out arm by arm.
+As built: Workload extras: 1-19 arms, n_jobs in {1,2,3,-1} (threads), reward magnitudes 2^-40..2^40 and near-equal values (one class per history), arm changes before the first fit; in 1/27 of the cases one batch of 2^20 + k rows laid out arm by arm; 1/12 of the later training calls carry an empty batch.
 """
 from mon import env  # noqa: F401
 import copy
@@ -148,6 +148,11 @@ def run_case(rs, ctx):
     n_ops = int(rs.integers(4, 26))
     pre = gen.gen_ops(rs, cfg, sh, int(rs.integers(0, 3)), ["add_arm", "remove_arm"])  # arm changes before first fit
     ops = pre + gen.gen_ops(rs, cfg, sh, 1, ["fit"], rkind=rk) + gen.gen_ops(rs, cfg, sh, n_ops, KINDS, train_rows=(1, 12), rkind=rk)
+    # a history (a log slice, a filtered batch) may be empty: fit([], []) still resets, partial_fit([], []) changes nothing
+    for o in ops[len(pre) + 1:]:
+        if o["op"] in ("fit", "partial_fit") and rs.integers(12) == 0:
+            o["d"], o["r"] = [], []
+            ctx.count("empty_batches")
     if (ctx.index // 6) % 27 == 5:
         # one very long batch (2^20 + k rows, beyond any plausible internal block size) whose rows come arm by arm, as logs
         # sorted by arm do; then the ordinary life goes on
